@@ -22,6 +22,9 @@ FILES = [
     "crates/compiler/src/pipeline/separate.rs",
     "crates/compiler/src/typer/toplevel.rs",
     "crates/compiler/src/typer/util.rs",
+    "crates/compiler/src/typer/check.rs",
+    "crates/compiler/src/typer/localenv.rs",
+    "crates/compiler/src/typer/unify.rs",
     "crates/compiler/src/hir.rs",
     "crates/compiler/src/typer/name_resolution.rs",
     "crates/compiler/src/compile_match.rs",
@@ -30,7 +33,7 @@ FILES = [
     "crates/compiler/src/env.rs",
 ]
 
-HASHTY = r"(?:std::collections::)?Hash(?:Map|Set)\b"
+HASHTY = r"(?:(?:Vec|Option)<\s*)*(?:std::collections::)?(?:Im)?Hash(?:Map|Set)\b"
 ITER_METHODS = r"iter|iter_mut|keys|values|values_mut|into_iter|into_keys|into_values|drain|difference|union|intersection|symmetric_difference"
 
 # (file basename, fn, normalised line) -> (class, why)
@@ -77,6 +80,19 @@ TABLE = {
         (N, "fills `enums_by_package` (nested maps and sets) which is only queried by key"),
     ("name_resolution.rs", "resolve_files_with_env", ".imports .iter()"):
         (N, "`ast::File.imports` is a Vec (name collision with `ResolutionContext.imports`)"),
+    ("separate.rs", "link_cores", "in unit.deps.iter() {"): (N, "`CoreUnit.deps` is a BTreeMap (name collision with `PackageTypeEnv.deps`)"),
+    ("separate.rs", "topo_sort", "in unit.deps.keys() {"): (N, "`CoreUnit.deps` is a BTreeMap"),
+    ("check.rs", "has_visible_trait_impl", "genv.deps .values() .any("): (N, "`any` over the dependency environments: order-independent"),
+    ("unify.rs", "", "for dep in genv.deps.values() {"):
+        (N, "collects the impls found in the dependency environments; only their number (0 / 1 / several) and, when it is 1, "
+            "the single element are used"),
+    ("localenv.rs", "lookup_var", "in self.scopes.iter().enumerate().rev() {"):
+        (N, "`scopes` is a Vec of maps walked innermost first; each map is only queried by key"),
+    ("localenv.rs", "end_closure", "capture_stack .pop()"):
+        (O, "the capture list of a closure in map order: `Typer::subst` reports one unresolved type variable per capture in "
+            "that order (seeded change C13-capture-map-diagnostic-order; the tree keeps an IndexMap here)"),
+    ("check.rs", "", "field_map.keys()"):
+        (O, "joined into the text of `Struct pattern … has unknown fields: …` (fixed: written order)"),
     # ---- go/dce.rs
     ("dce.rs", "dce_block_with_live", "for u in &used_rhs {"): (N, "inserts into the liveness set"),
     ("dce.rs", "dce_block_with_live", "live.extend(cases_live_in);"): (N, "set union"),
@@ -119,6 +135,21 @@ def hash_names(text, fns_ret):
     return names
 
 
+def struct_fields(text):
+    fields = set(m.group(1) for m in re.finditer(r"\bpub\s+([a-z_][a-z0-9_]*)\s*:\s*" + HASHTY, text))
+    for sm in re.finditer(r"\bstruct\s+[A-Za-z0-9_]+(?:<[^>]*>)?\s*\{(.*?)\n\}", text, flags=re.S):
+        for m in re.finditer(r"^\s*(?:pub(?:\([a-z]+\))?\s+)?([a-z_][a-z0-9_]*)\s*:\s*" + HASHTY, sm.group(1), flags=re.M):
+            fields.add(m.group(1))
+    return fields
+
+
+# hash-typed public fields of structs defined in any scanned file (e.g. `PackageTypeEnv.deps`, used as `genv.deps`)
+GLOBAL_FIELDS = set()
+
+# calls that may stand between the collection and the iteration: `self.capture_stack.pop().unwrap_or_default().into_iter()`
+PASS_THROUGH = r"(?:\s*\.\s*(?:pop|unwrap_or_default|unwrap|clone|as_ref|as_mut|take|last|last_mut|borrow|borrow_mut)\s*\(\s*\))*"
+
+
 def scan_file(repo, rel):
     path = os.path.join(repo, rel)
     if not os.path.exists(path):
@@ -126,11 +157,9 @@ def scan_file(repo, rel):
     src = open(path, encoding="utf-8").read().split("\n")
     base = os.path.basename(rel)
     text = "\n".join(strip_line_comment(l) for l in src)
-    # struct fields (file-global) and functions returning a hash collection
-    fields = set(m.group(1) for m in re.finditer(r"\bpub\s+([a-z_][a-z0-9_]*)\s*:\s*" + HASHTY, text))
-    for sm in re.finditer(r"\bstruct\s+[A-Za-z0-9_]+(?:<[^>]*>)?\s*\{(.*?)\n\}", text, flags=re.S):
-        for m in re.finditer(r"^\s*(?:pub(?:\([a-z]+\))?\s+)?([a-z_][a-z0-9_]*)\s*:\s*" + HASHTY, sm.group(1), flags=re.M):
-            fields.add(m.group(1))
+    # struct fields (of this file and public ones of the other scanned files) and functions returning a hash collection
+    own_fields = struct_fields(text)
+    fields = own_fields | GLOBAL_FIELDS
     fns_ret = set(m.group(1) for m in re.finditer(
         r"\bfn\s+([a-z_][a-z0-9_]*)\s*(?:<[^>]*>)?\s*\([^)]*\)\s*->\s*(?:\(\s*[^)]*?)?" + HASHTY, text))
     sites = []
@@ -142,7 +171,7 @@ def scan_file(repo, rel):
         recv = r"(?:[a-z_][a-z0-9_]*(?:\(\))?\s*\.\s*)*(?:" + alt + r")"
         falt = "|".join(sorted(re.escape(n) for n in fns_ret)) or "$^"
         pats = [
-            ("method", re.compile(r"\b(" + recv + r")\s*\.\s*(" + ITER_METHODS + r")\s*\(")),
+            ("method", re.compile(r"\b(" + recv + r")" + PASS_THROUGH + r"\s*\.\s*(" + ITER_METHODS + r")\s*\(")),
             ("for", re.compile(r"\bfor\s+[^;{]*?\bin\s+&?(?:mut\s+)?(" + recv + r")\s*\{")),
             ("for-call", re.compile(r"\bfor\s+[^;{]*?\bin\s+&?((?:" + falt + r"))\s*\(")),
             ("extend", re.compile(r"\.\s*extend\s*\(\s*&?(" + recv + r")\s*\)")),
@@ -150,13 +179,19 @@ def scan_file(repo, rel):
         for i in range(lo, hi + 1):
             line = strip_line_comment(src[i])
             joined = line
-            if i + 1 <= hi and re.match(r"\s*\.\s*(?:" + ITER_METHODS + r")\s*\(", strip_line_comment(src[i + 1])):
-                joined = line.rstrip() + " " + strip_line_comment(src[i + 1]).strip()
+            if not re.match(r"\s*\.", line):
+                j = i + 1
+                while j <= hi and j < i + 8 and re.match(r"\s*\.\s*[a-z_]+", strip_line_comment(src[j])):
+                    joined = joined.rstrip() + " " + strip_line_comment(src[j]).strip()
+                    j += 1
             for kind, p in pats:
                 for m in p.finditer(joined):
                     r = m.group(1)
                     last = re.split(r"\s*\.\s*", r)[-1]
                     if kind != "for-call" and last not in allnames:
+                        continue
+                    # a field name known only from another file counts only when it is written as a field (`x.deps`)
+                    if kind != "for-call" and last not in (local | own_fields) and "." not in r:
                         continue
                     norm = " ".join(joined.split())
                     sites.append({"file": rel, "line": i + 1, "fn": fn, "kind": kind, "receiver": r,
@@ -182,6 +217,11 @@ def classify(site):
 def main():
     repo = sys.argv[1] if len(sys.argv) > 1 else os.environ.get("GV_REPO", "/repo")
     out = {"files": [], "sites": [], "missing_files": []}
+    for rel in FILES:
+        pth = os.path.join(repo, rel)
+        if os.path.exists(pth):
+            GLOBAL_FIELDS.update(m.group(1) for m in re.finditer(
+                r"\bpub\s+([a-z_][a-z0-9_]*)\s*:\s*" + HASHTY, "\n".join(strip_line_comment(l) for l in open(pth, encoding="utf-8").read().split("\n"))))
     for rel in FILES:
         sites = scan_file(repo, rel)
         if sites is None:
